@@ -129,7 +129,7 @@ func readSize(r *hx.Rand, size int) int {
 
 func gen(g *hx.Gen) {
 	r := g.R
-	n := g.Count(3000, 120000)
+	n := g.Count(3000, 60000)
 	for i := 0; i < n; i++ {
 		alg := r.PickStr("b", "s")
 		size, bs, maxLen := 64, 128, 70000
@@ -234,11 +234,11 @@ func gen(g *hx.Gen) {
 		if r.Chance(1, 3) {
 			ops = append(ops, "rd5", "rd0") // at / after the end
 		}
-		if (length == 0 || length > 60000) && (r.Chance(1, 100) || (g.Thorough() && r.Chance(1, 10))) {
+		if (length == 0 || length > 60000) && (r.Chance(1, 100) || (g.Thorough() && r.Chance(1, 30))) {
 			// node offsets beyond 2^16: skip far ahead (output discarded), then compare real output again
 			far := 65536*size + r.PickInt(-size-1, -1, 0, 1, size, 3*size+5)
 			if g.Thorough() && r.Bool() {
-				far = r.Range(1, 40) * 65536 * size / 8
+				far = r.Range(1, 16) * 65536 * size / 8
 			}
 			ops = append(ops, fmt.Sprintf("sk%d", far), fmt.Sprintf("rd%d", r.PickInt(1, size, size+1, 2*size+3)), "rd7")
 			g.Stat("skip.past-node-65536")
